@@ -12,7 +12,10 @@ git -C /repo worktree remove --force $WT 2>/dev/null
 git -C /repo worktree add --detach $WT HEAD -q || exit 2
 export GOFLAGS=-mod=mod GOPROXY=off
 cd $WT
-pkgdir() { case "$(grep -m1 '^package' "$1" | awk '{print $2}')" in scorch) echo index/scorch;; *) echo .;; esac; }
+pkgdir() { case "$(grep -m1 '^package' "$1" | awk '{print $2}')" in
+  scorch) echo index/scorch;; gtreap) echo index/upsidedown/store/gtreap;; moss) echo index/upsidedown/store/moss;;
+  upsidedown) echo index/upsidedown;; searcher) echo search/searcher;; collector) echo search/collector;;
+  zz_demo) mkdir -p zz_demo; echo zz_demo;; *) echo .;; esac; }
 for f in $SRC/*_test.go; do d=$(pkgdir $f); cp $f $d/zz_$(basename $f); done
 inns() { unshare -m bash -c "mount -t tmpfs tmpfs /tmp || exit 99; cd $WT || exit 98; $1"; }
 run_demos() {
@@ -28,7 +31,7 @@ run_demos; without=$?
 git apply $SRC/patch.diff >> $LOG 2>&1 || { echo "$NAME: patch does not apply"; exit 2; }
 echo "--- demos WITH patch" >> $LOG
 run_demos; with=$?
-rm -f ./zz_*_test.go index/scorch/zz_*_test.go
+find . -name 'zz_*_test.go' -delete; rm -rf zz_demo
 echo "--- full suite WITH patch" >> $LOG
 inns "go test -vet=off -count=1 -timeout 25m ./..." > /dev/shm/cf-$NAME.suite 2>&1; suite=$?
 failed=$(grep "^FAIL	" /dev/shm/cf-$NAME.suite | awk '{print $2}' | sed 's|github.com/blevesearch/bleve/v2|.|')
